@@ -6,6 +6,7 @@ CONSTANTS
   Configs = {1, 12}
   MaxList = 2
   GenMode = FALSE
+  SetAll = FALSE
   DEV_SpellingInEq = FALSE
 INVARIANT LawValid
 INVARIANT LawNormal
@@ -13,6 +14,7 @@ INVARIANT LawGrammar
 INVARIANT LawParse
 INVARIANT LawReprint
 INVARIANT LawRoundTripEqual
+INVARIANT LawSetPrint
 INVARIANT LawSolGrammar
 INVARIANT LawSolParse
 INVARIANT LawSolReprint
